@@ -38,7 +38,17 @@ OpnConfigs ==
               : p \in Policies \ {"None"}}
 OpnCases == UNION {{[b EXCEPT !.len = l, !.seq0 = Seq0(l), !.req = Req(l)] : l \in OpnLens(b)} : b \in OpnConfigs}
 
-Cases == MsgCases \cup OpnCases
+\* PADDING SWEEP of asymmetric chunks: the padding is a function of (body length mod plain text block), so a run of plain + 3
+\* consecutive body lengths (step 1) meets every padding size of the scheme, in particular, for receiver keys above 2048
+\* bits, the sizes around 256 where the second size byte starts to count.  step > 1 = a sample of the period.
+SweepCases ==
+  UNION {LET b == Base("opn", w.pol, "SignAndEncrypt", w.dir, w.sbits, w.rbits, 0)
+             m == Min("opn", w.dir)
+         IN {[b EXCEPT !.len = m + k * w.step, !.seq0 = Seq0(m + k * w.step), !.req = Req(m + k * w.step)]
+              : k \in 0..((Cfg(b).plain + 2) \div w.step)}
+         : w \in Sweeps}
+
+Cases == MsgCases \cup OpnCases \cup SweepCases
 
 VARIABLE c
 Init == c \in Cases
